@@ -18,8 +18,8 @@ from symx.core import _z, range_len, slice_indices
 from symx.graph import layer_keys_ok, run_blocks
 from symx.oracle import AND, EQ, IMPLIES, ITE, NOT, OR, cumsum0, int_in_range
 from symx.runner import Instance
-from symx.sarr import BoundsLog, MArr, SArr, leaf, mutable_copy, same_array
-from symx.world import SHIM_LIST
+from symx.sarr import BoundsLog, MArr, SArr, Shared, SharedWrite, leaf, mutable_copy, same_array, shared
+from symx.world import SHIM_LIST, SymNp
 
 from .common import unit_hashes, world
 
@@ -27,13 +27,15 @@ PROPERTY = "C11"
 SI = "dask_array.slicing._setitem"
 SU = "dask_array.slicing._utils"
 MODS = [SI, SU]
-UNITS = [(SI, "setitem_array_expr"), (SI, "parse_and_validate_assignment"), (SU, "parse_assignment_indices"),
+UNITS = [("dask_array._core_utils", "_elemwise_handle_where"), (SU, "setitem"), (SI, "setitem_array_expr"), (SI, "parse_and_validate_assignment"), (SU, "parse_assignment_indices"),
          (SU, "normalize_index"), (SU, "normalize_slice"), (SU, "posify_index"), (SU, "check_index")]
 STUBS = SHIM_LIST + [
     "array / value collections -> duck-typed symbolic collections (shape, chunks, keys; value[idx] is NumPy indexing of a "
     "symbolic array, one chunk)",
-    "block kernel setitem(x, v, indices) -> copy of the block with x[indices] = v under NumPy semantics (value broadcast to "
-    "the selection; obligations: integer index in range, value broadcasts to the selected shape)",
+    "block kernel: the repository's own setitem(x, v, indices) runs on a buffer model of the block (symx.sarr.Shared: "
+    "copy() is private and writable, view()/masked_array(copy=False) alias the block, writing into the block or an alias is "
+    "an obligation failure); the assignment itself has NumPy semantics (value broadcast to the selection; obligations: "
+    "integer index in range, value broadcasts to the selected shape); mask propagation of masked values is not modelled",
 ]
 ASSUMPTIONS = [
     "rank (<=2), blocks per axis, index kinds (ints, slices of every None-pattern with steps in +-1..3), value shape kind "
@@ -41,8 +43,10 @@ ASSUMPTIONS = [
     "the value's shape is compatible with the selection (exact, length-1 axes, scalar, or trailing axes only)",
     "the documented refusal 'Empty slices can only be assigned size 1 values' (ValueError when the selection has an empty "
     "axis and the value more than one element) is accepted as a refusal: it is an error, not a wrong result",
-    "NOT decided here: that previously derived collections keep their value, out=, compute_chunk_sizes, source arrays are not "
-    "modified (object identity / buffer aliasing of NumPy kernels), array and boolean keys",
+    "buffer aliasing: the two block functions that write (setitem, _elemwise_handle_where for ufunc(where=, out=)) run on a "
+    "buffer model in which every block they receive is shared with other tasks/collections -- they must write only private "
+    "copies, which is what keeps previously derived collections and source arrays unchanged; NOT decided: "
+    "compute_chunk_sizes, array / boolean / dask-array keys, the collection-level bookkeeping of out= (handle_out)",
 ]
 
 
@@ -90,21 +94,55 @@ class Coll:
         return Coll(f"{self.name}-sel{Coll._n}", sub, tuple((d,) for d in sub.shape))
 
 
-def _setitem_kernel(x, v, indices):
-    out = mutable_copy(x)
-    out[tuple(indices)] = v
-    return out
+class _NpMa(SymNp):
+    """np for the cloned slicing utilities: the masked-array entry points the setitem kernel touches, on the buffer model --
+    a masked view / masked_array(copy=False) of a block is an *alias* of it (mask propagation itself is not modelled)"""
+
+    class ma:
+        MaskedArray = type("MaskedArray", (), {})
+
+        @staticmethod
+        def isMA(x):
+            return bool(getattr(x, "masked", False))
+
+        @staticmethod
+        def masked_array(x, *a, copy=False, **k):
+            if isinstance(x, Shared):
+                out = x.copy() if copy else x.view(_NpMa.ma.MaskedArray)
+                out.masked = True
+                return out
+            return np.ma.masked_array(x, *a, copy=copy, **k)
+
+
+def _real_setitem(E, w, masked_value=False):
+    """the repository's own chunk function on a block other tasks also hold; obligation: it only ever writes a private copy"""
+    fn = w.fn(SU, "setitem")
+
+    def kernel(x, v, indices):
+        if masked_value and isinstance(v, SArr):
+            v = shared(v, masked=True)
+        try:
+            return fn(shared(x) if not isinstance(x, (Shared, MArr)) else x, v, list(indices))
+        except SharedWrite:
+            E.ensure("setitem-writes-only-a-private-copy", False)
+            out = mutable_copy(x)
+            out[tuple(indices)] = v
+            return out
+
+    return kernel
 
 
 def W(E):
-    return world("C11", E.symbolic, MODS)
+    w = world("C11", E.symbolic, MODS)
+    w.ns[SU]["np"] = _NpMa()
+    return w
 
 
 def mk(E, name, present):
     return E.int(name) if present else None
 
 
-def inst_assign(blocks, spec, vkind):
+def inst_assign(blocks, spec, vkind, masked_value=False):
     """spec: per axis 'i' | (ps, pe, step); vkind: 'exact' | 'ones' (length-1 axes) | 'scalar' | 'lastaxis'"""
     rank = len(blocks)
 
@@ -162,7 +200,7 @@ def inst_assign(blocks, spec, vkind):
         dsk.update(x.__dask_graph__())
         dsk.update(val.__dask_graph__())
         layer_keys_ok(E, dsk, "out", x.numblocks)
-        whole, _r = run_blocks(E, dsk, "out", chunks, kernels=dict(setitem=_setitem_kernel))
+        whole, _r = run_blocks(E, dsk, "out", chunks, kernels=dict(setitem=_real_setitem(E, w, masked_value)))
         for lab, cond in log.items:
             E.ensure(lab, cond)
         # reference: NumPy assignment on the whole array
@@ -218,23 +256,75 @@ def inst_assign(blocks, spec, vkind):
         v = -(np.arange(int(np.prod(vshape)) if vshape else 1, dtype="f8") + 1).reshape(vshape)
         want = data.copy()
         want[raw] = v
-        d = da.from_array(data.copy(), chunks=cs)
+        if masked_value:
+            v = np.ma.masked_array(v, mask=np.zeros(np.shape(v), dtype=bool))
+        src = data.copy()
+        d = da.from_array(src, chunks=cs)
         before = d[...] + 0
         try:
             d[raw] = v
             got = d.compute(scheduler="sync")
         except Exception as ex:  # NumPy accepted the assignment above
             return dict(ok=False, detail=f"numpy assigns, dask_array raises {type(ex).__name__}: {ex}; chunks={cs} index={raw} vshape={vshape}"[:400])
-        ok = bool(np.array_equal(got, want)) and bool(np.array_equal(before.compute(scheduler="sync"), data))
-        return dict(ok=ok, detail=f"chunks={cs} index={raw} vshape={vshape} got={got.tolist()} want={want.tolist()}"[:400])
+        untouched = bool(np.array_equal(src, data))  # the array x was built from
+        ok = bool(np.array_equal(np.ma.getdata(got), want)) and bool(np.array_equal(before.compute(scheduler="sync"), data)) and untouched
+        return dict(ok=ok, detail=f"chunks={cs} index={raw} vshape={vshape} source untouched={untouched} got={np.ma.getdata(got).tolist()} "
+                                  f"want={want.tolist()}"[:400])
 
     nm = "x".join(map(str, blocks))
     cost = 1.0
     for s in spec:
         if isinstance(s, tuple):
             cost *= 3 * (2 if (s[2] or 1) < 0 else 1) * abs(s[2] or 1)
-    return Instance(f"setitem[blocks={nm},idx={spec},value={vkind}]", body, dict(blocks=blocks, index=spec, value=vkind),
+    return Instance(f"setitem[blocks={nm},idx={spec},value={vkind}{',masked value' if masked_value else ''}]", body,
+                    dict(blocks=blocks, index=spec, value=vkind, masked_value=masked_value),
                     unit="setitem_array_expr + parse_assignment_indices", api_replay=api, cost=cost * max(blocks), wall_s=900)
+
+
+def inst_where_out(rank, owndata):
+    """ufunc(a, b, where=mask, out=x): the block function `_elemwise_handle_where` receives x's block -- a buffer the
+    persisted graph, x's earlier slices and copies also hold (owning its memory or a view of a source) -- and must produce
+    where(mask, a + b, x) without writing into it"""
+    def body(E):
+        import dask_array._core_utils as CUm
+
+        shape = tuple(E.int(f"n{a}", 1) for a in range(rank))
+        A, B, X, M = (leaf(t, shape) for t in ("A", "B", "X", "M"))
+        mask = M > 0
+        out = shared(X, owndata=owndata)
+        try:
+            res = CUm._elemwise_handle_where(shared(A), shared(B), mask, out, elemwise_where_function=np.add)
+        except SharedWrite:
+            E.ensure("ufunc-writes-only-a-private-copy-of-out", False)
+            return
+        E.ensure("result-is-not-the-shared-block", res is not out)
+        ref = SArr(shape, lambda idx: z3.If(mask._at(idx), A._at(idx) + B._at(idx), X._at(idx)))
+        same_array(E, res, ref, label="where-out")
+        same_array(E, out, X, label="out-block-unchanged", skolem="q")
+
+    def api(values):
+        import dask_array as da
+
+        shape = tuple(values[f"n{a}"] for a in range(rank))
+        if int(np.prod(shape)) > 5000 or 0 in shape:
+            return dict(ok=False, detail="unit-level replay stands (API replay needs a small non-empty array)")
+        n = int(np.prod(shape))
+        x_np = (np.arange(n, dtype="f8") * 3).reshape(shape)
+        mask_np = (np.arange(n) % 3 == 0).reshape(shape)
+        x = (da.from_array(x_np.copy(), chunks=shape) * 1).persist(scheduler="sync") if owndata else da.from_array(x_np.copy(), chunks=shape)
+        keep = x + 0
+        np.add(x, 1000, where=da.from_array(mask_np, chunks=shape), out=x)
+        ref = x_np.copy()
+        np.add(ref, 1000, where=mask_np, out=ref)
+        got = x.compute(scheduler="sync")
+        again = x.compute(scheduler="sync")
+        kept = keep.compute(scheduler="sync")
+        ok = bool(np.array_equal(got, ref) and np.array_equal(again, ref) and np.array_equal(kept, x_np))
+        return dict(ok=ok, detail=f"shape={shape} first={got.ravel()[:6].tolist()} second={again.ravel()[:6].tolist()} "
+                                  f"earlier copy={kept.ravel()[:6].tolist()}")
+
+    return Instance(f"where_out[rank={rank},block owns its data={owndata}]", body, dict(rank=rank, owndata=owndata),
+                    unit="_elemwise_handle_where", api_replay=api)
 
 
 def instances(tier):
@@ -259,6 +349,13 @@ def instances(tier):
     out.append(inst_assign((2, 2), ((1, 1, None), (1, 0, -1)), "lastaxis"))
     out.append(inst_assign((2, 1), ((1, 1, 2), (0, 1, None)), "scalar"))
     out.append(inst_assign((2, 2), ("i", "i"), "scalar"))
+    for rank in (1, 2):
+        out.append(inst_where_out(rank, True))
+        out.append(inst_where_out(rank, False))
+    # a masked value assigned into a plain array: the kernel turns the block into a masked array before writing
+    out.append(inst_assign((2,), ((1, 1, None),), "exact", masked_value=True))
+    out.append(inst_assign((2,), ("i",), "scalar", masked_value=True))
+    out.append(inst_assign((2, 2), ("i", (1, 1, None)), "exact", masked_value=True))
     if not q:
         out.append(inst_assign((2, 2), ((1, 1, -2), (1, 1, 2)), "exact"))
         out.append(inst_assign((2, 3), ((1, 1, None), (1, 1, -1)), "ones"))
